@@ -111,6 +111,8 @@ pub enum FMut {
 pub enum Req {
 	CheckVersion { rpc: bool },
 	Coinbase { key: CbKey, rpc: bool },
+	/// the same request for a block height below the named output's own height (the field is the caller's)
+	CoinbaseLowHeight { key: CbKey },
 	Receive { slate: RSlate, m: RMut, rpc: bool },
 	Finalize { slate: FSlate, m: FMut, rpc: bool },
 }
@@ -131,6 +133,9 @@ fn alphabet() -> Vec<Req> {
 	let mut v = vec![Req::CheckVersion { rpc: false }, Req::CheckVersion { rpc: true }];
 	for k in [CbKey::None, CbKey::Unknown, CbKey::UnconfirmedCandidate, CbKey::ConfirmedOutput, CbKey::LockedOutput, CbKey::UnconfirmedPlain].iter() {
 		v.push(Req::Coinbase { key: k.clone(), rpc: *k == CbKey::ConfirmedOutput });
+	}
+	for k in [CbKey::ConfirmedOutput, CbKey::LockedOutput, CbKey::UnconfirmedCandidate].iter() {
+		v.push(Req::CoinbaseLowHeight { key: k.clone() });
 	}
 	v.push(Req::Receive { slate: RSlate::Honest(0), m: RMut::None, rpc: false });
 	v.push(Req::Receive { slate: RSlate::Honest(1), m: RMut::None, rpc: true });
@@ -366,7 +371,7 @@ impl Model for M {
 				Req::Receive { slate: RSlate::OwnInvoice, .. } => a.own_i1.is_some(),
 				Req::Finalize { slate: FSlate::ValidS2, .. } | Req::Finalize { slate: FSlate::OwnS1, .. } => a.own_s2.is_some(),
 				Req::Finalize { slate: FSlate::ValidI2, .. } => a.own_i2.is_some(),
-				Req::Coinbase { key: CbKey::LockedOutput, .. } => a.own_s1.is_some(),
+				Req::Coinbase { key: CbKey::LockedOutput, .. } | Req::CoinbaseLowHeight { key: CbKey::LockedOutput } => a.own_s1.is_some(),
 				Req::Coinbase { key: CbKey::UnconfirmedPlain, .. } => a.received_s1.is_some() || !a.received.is_empty(),
 				_ => true,
 			})
@@ -374,6 +379,14 @@ impl Model for M {
 	}
 
 	fn step(&self, w: &mut World, req: &Req, out: &mut StepOut) {
+		let low_height = matches!(req, Req::CoinbaseLowHeight { .. });
+		let req_owned;
+		let req: &Req = if let Req::CoinbaseLowHeight { key } = req {
+			req_owned = Req::Coinbase { key: key.clone(), rpc: false };
+			&req_owned
+		} else {
+			req
+		};
 		let mut ar = art(w);
 		let ids = known_ids(&ar);
 		let t = w.w("A");
@@ -397,6 +410,7 @@ impl Model for M {
 		let mut in_slate: Option<Slate> = None;
 		let mut dest: Option<String> = None;
 		let outcome: Outcome = match req {
+			Req::CoinbaseLowHeight { .. } => unreachable!(),
 			Req::CheckVersion { rpc } => {
 				if *rpc {
 					rpc_call(&api, json!({"jsonrpc": "2.0", "method": "check_version", "id": 1, "params": []}))
@@ -429,7 +443,7 @@ impl Model for M {
 					out.label = "n/a".into();
 					return;
 				}
-				let bf = BlockFees { fees: 0, key_id, height: w.node.height() + 1 };
+				let bf = BlockFees { fees: 0, key_id, height: if low_height { 1 } else { w.node.height() + 1 } };
 				if *rpc {
 					rpc_call(&api, json!({"jsonrpc": "2.0", "method": "build_coinbase", "id": 1, "params": [bf]}))
 						.map(|_| Outcome::Ok(None))
@@ -568,7 +582,14 @@ impl Model for M {
 		let info_after = t.info(false, 1).unwrap().1;
 		let kind = match req {
 			Req::CheckVersion { .. } => "check_version",
-			Req::Coinbase { .. } => "build_coinbase",
+			Req::Coinbase { .. } => {
+				if low_height {
+					"build_coinbase@height-1"
+				} else {
+					"build_coinbase"
+				}
+			}
+			Req::CoinbaseLowHeight { .. } => "build_coinbase@height-1",
 			Req::Receive { .. } => "receive_tx",
 			Req::Finalize { .. } => "finalize_tx",
 		};
@@ -596,7 +617,7 @@ impl Model for M {
 					break;
 				}
 				Some(v2) if v2 != v => {
-					let replaced_candidate = kind == "build_coinbase" && v["status"] == "Unconfirmed" && v["is_coinbase"] == true;
+					let replaced_candidate = kind.starts_with("build_coinbase") && v["status"] == "Unconfirmed" && v["is_coinbase"] == true;
 					if !replaced_candidate {
 						out.problem(
 							format!("existing-output-changed/{}/{}", kind, req_class(req)),
@@ -633,6 +654,7 @@ impl Model for M {
 					out.problem(format!("refused-request-added-records/{}/{}", kind, req_class(req)), format!("{}: returned {} but added {} outputs / {} log entries", mclass, out.label, new_outs.len(), new_txs.len()));
 				}
 			}
+			(Outcome::Ok(_), Req::CoinbaseLowHeight { .. }) => unreachable!(),
 			(Outcome::Ok(_), Req::Coinbase { .. }) => {
 				if !new_txs.is_empty() || new_outs.len() > 1 {
 					out.problem("coinbase-added-too-much", format!("{}: added {} outputs / {} log entries", mclass, new_outs.len(), new_txs.len()));
@@ -699,7 +721,7 @@ impl Model for M {
 fn req_class(r: &Req) -> String {
 	match r {
 		Req::CheckVersion { .. } => "-".into(),
-		Req::Coinbase { key, .. } => format!("{:?}", key),
+		Req::Coinbase { key, .. } | Req::CoinbaseLowHeight { key } => format!("{:?}", key),
 		Req::Receive { slate, m, .. } => format!("{:?}:{:?}", slate, m).replace("Honest(0)", "Honest").replace("Honest(1)", "Honest").replace("Honest(2)", "Honest"),
 		Req::Finalize { slate, m, .. } => format!("{:?}:{:?}", slate, m),
 	}
